@@ -30,6 +30,10 @@ KUNITS = {
         H('systematic_constants::verif_hooks::kani_tab::row_facts_1', True, covers=False),
         H('systematic_constants::verif_hooks::kani_tab::row_facts_2', True, covers=False),
         H('systematic_constants::verif_hooks::kani_tab::row_facts_3', True, covers=False),
+        H('systematic_constants::verif_hooks::kani_tab::row_facts_4', True, covers=False),
+        H('systematic_constants::verif_hooks::kani_tab::row_facts_5', True, covers=False),
+        H('systematic_constants::verif_hooks::kani_tab::row_facts_6', True, covers=False),
+        H('systematic_constants::verif_hooks::kani_tab::row_facts_7', True, covers=False),
         H('systematic_constants::verif_hooks::kani_tab::lookups_return_least_row', True, timeout='30m',
           functions=['src/systematic_constants.rs extended_source_block_symbols, systematic_index, num_ldpc_symbols, num_hdpc_symbols, num_lt_symbols, num_intermediate_symbols, num_pi_symbols, calculate_p1']),
         H('systematic_constants::verif_hooks::kani_tab::lookups_refuse_large_k', True, refusal=True),
